@@ -30,6 +30,7 @@
 import Rtp.Proofs.PipelineCodecs
 import Rtp.Proofs.PipelineVP9
 import Rtp.Proofs.PipelineAV1
+import Rtp.Proofs.PipelineH265
 import Rtp.Props.C10
 namespace Rtp.Props.Pipeline
 open Rtp Rtp.Model Rtp.Model.Pipeline Rtp.Pred.Pipeline Rtp.Proofs.Pipeline
@@ -229,6 +230,74 @@ theorem pipeline_av1 (pk : Packetizer) (hcfg : cfgOk pk = true) (hm : overhead p
   rw [h.2]
   exact av1Exp_serialise pk.budget hB fr.obus hw'.2
 
+/-! ### H265 without DONL (C06 ∘ C01 ∘ C08 ∘ C14) -/
+
+/-- the full intended H265 statement: every option setting of the payloader (the receiver expects
+    DONL fields iff the payloader adds them).  It is FALSE with AddDONL whenever a unit is
+    fragmented (known finding `c14_donl_fu`, `Rtp.Props.C14.c14_donl_fu_witness`: the payloader writes
+    a DONL into every FU), so only the part without DONL is proved below. -/
+def pipeline_h265_full : Prop :=
+  ∀ (cfg : H265.Cfg) (d : UInt16) (pk : Packetizer), cfgOk pk = true →
+    overhead pk + (if cfg.addDONL then 6 else 4) ≤ pk.mtu.toNat →
+    ∀ (frames : List H265Frame), (∀ fr ∈ frames, Rtp.Pred.C14.frameWF fr.units = true) →
+    histOkH265 pk frames (runH265 cfg d pk (frames.map H265Frame.frameIn)) = true
+
+/-- **pipeline_h265_partial** (the part of `pipeline_h265_full` without AddDONL; SkipAggregation
+    either way).  An H265Payloader with ANY DONL counter inside a packetizer in any state, a frame of
+    ≥ 1 well-formed HEVC NAL units (C14: ≥ 3 bytes, F = 0, type 0–47, no start code inside, no
+    trailing zero) behind 3- or 4-byte start codes or one bare unit, an MTU that leaves the payloader
+    4 bytes (C14's bound).  `H265Packet.Unmarshal` hands back no bytes, so the receiving side keeps
+    the payloads it accepted (`h265Depack`) and the statement is: the train is well formed (in
+    particular `H265Packet` accepts every payload), and the payloads are RFC 7798 packets that
+    `H265Packet` decodes to exactly their descriptions and that reassemble to the frame's units in
+    order (`H265Received`). -/
+theorem pipeline_h265_partial (skip : Bool) (d : UInt16) (pk : Packetizer) (hcfg : cfgOk pk = true)
+    (hm : overhead pk + 4 ≤ pk.mtu.toNat) (fr : H265Frame) (hwf : Rtp.Pred.C14.frameWF fr.units = true) :
+    let o := (round (h265Pay ⟨false, skip⟩) (h265Depack false) { pk := pk, st := d } () fr.frameIn).1
+    trainOk pk (pk.seq.seq + 1) pk.ts o = true ∧ H265Received (fr.units.map (·.2)) o := by
+  obtain ⟨hv, hpt⟩ := cfgOk_parts hcfg
+  have hb := budget_toNat pk (by omega : overhead pk ≤ pk.mtu.toNat)
+  have hB : 4 ≤ pk.budget.toNat := by omega
+  have hi : h265Inv d fr.frameIn.frame := ⟨fr.units, hwf, rfl⟩
+  obtain ⟨he, hx⟩ := h265_fits ⟨false, skip⟩ pk.budget d _ hi
+  show trainOk pk (pk.seq.seq + 1) pk.ts (round _ _ _ _ _).1 = true ∧ H265Received _ (round _ _ _ _ _).1
+  rw [round_eq (h265Pay ⟨false, skip⟩) (h265Depack false) { pk := pk, st := d } () _ hv hpt he]
+  have hr := h265_received skip pk.budget d hB fr.units hwf
+    (pktsOf (h265Pay ⟨false, skip⟩) { pk := pk, st := d } fr.frameIn)
+  exact ⟨ideal_train (h265Pay ⟨false, skip⟩) (h265Depack false) { pk := pk, st := d } () _
+    (by show overhead pk ≤ pk.mtu.toNat; omega) hx (all_ok_of_received _ _ hr), hr⟩
+
+/-- **pipeline_h265_history_partial.**  Any list of such frames on one packetizer: the trains are
+    well formed along the history, and every frame is received as RFC 7798 packets, accepted by
+    `H265Packet`, that reassemble to that frame's units (`histOkH265`, the predicate the driver
+    evaluates on the real code). -/
+theorem pipeline_h265_history_partial (skip : Bool) (d : UInt16) (pk : Packetizer) (hcfg : cfgOk pk = true)
+    (hm : overhead pk + 4 ≤ pk.mtu.toNat) (frames : List H265Frame)
+    (hw : ∀ fr ∈ frames, Rtp.Pred.C14.frameWF fr.units = true) :
+    histOkH265 pk frames (runH265 ⟨false, skip⟩ d pk (frames.map H265Frame.frameIn)) = true := by
+  obtain ⟨hv, hpt⟩ := cfgOk_parts hcfg
+  have hb := budget_toNat pk (by omega : overhead pk ≤ pk.mtu.toNat)
+  have hB : 4 ≤ pk.budget.toNat := by omega
+  have hfit := h265_fits ⟨false, skip⟩ pk.budget
+  have hne : ∀ (st : UInt16) frame, h265Inv st frame → frame.isEmpty = false := fun st fr h => (hfit st fr h).1
+  have hp := h265_payOk ⟨false, skip⟩ pk.budget frames hw d
+  have heach := run_each (h265Pay ⟨false, skip⟩) (h265Depack false) h265Inv
+    (fun frame o => ∀ fr, Rtp.Pred.C14.frameWF fr = true → frame = Rtp.Pred.C14.frameBytes fr →
+      H265Received (fr.map (·.2)) o)
+    (frames.map H265Frame.frameIn) { pk := pk, st := d } () hv hpt hne
+    (fun st r frame pkts _ fr hwf hfr => by
+      cases r; subst hfr; exact h265_received skip pk.budget st hB fr hwf pkts) hp
+  simp only [histOkH265, runH265, Bool.and_eq_true]
+  constructor
+  · refine run_train (h265Pay ⟨false, skip⟩) (h265Depack false) h265Inv pk _ { pk := pk, st := d } () hv hpt
+      rfl rfl rfl (by show overhead pk ≤ pk.mtu.toNat; omega) hfit hp ?_
+    intro o ho
+    obtain ⟨f, hf, hP⟩ := eachFrame_mem _ _ _ heach o ho
+    obtain ⟨fr, hfr, rfl⟩ := List.mem_map.mp hf
+    exact all_ok_of_received _ _ (hP fr.units (hw fr hfr) rfl)
+  · exact histEach_of_eachFrame H265Frame.frameIn _ _ (fun fr => Rtp.Pred.C14.frameWF fr.units = true)
+      (fun fr o hd hP => frameOk_of_received _ _ (hP fr.units hd rfl)) frames _ hw heach
+
 /-! ### H264 (C06 ∘ C01 ∘ C08 ∘ C10) -/
 
 private theorem h264_calls_nals (B : UInt16) (frames : List H264Frame) :
@@ -359,6 +428,16 @@ theorem pipeline_av1_pred (pk : Packetizer) (d : AV1.DSt) (frames : List AV1Fram
   simp only [wfAV1, Bool.and_eq_true, decide_eq_true_eq] at h
   exact pipeline_av1_history pk h.1.1 h.1.2 d frames (fun fr hfr => (List.all_eq_true.mp h.2) fr hfr)
 
+theorem pipeline_h265_pred (cfg : H265.Cfg) (d : UInt16) (pk : Packetizer) (frames : List H265Frame)
+    (h : wfH265 cfg pk frames = true) :
+    histOkH265 pk frames (runH265 cfg d pk (frames.map H265Frame.frameIn)) = true := by
+  simp only [wfH265, Bool.and_eq_true, Bool.not_eq_true', decide_eq_true_eq] at h
+  obtain ⟨a, s⟩ := cfg
+  simp only at h
+  obtain ⟨⟨⟨ha, hc⟩, hm⟩, hf⟩ := h
+  subst ha
+  exact pipeline_h265_history_partial s d pk hc hm frames (fun fr hfr => (List.all_eq_true.mp hf) fr hfr)
+
 theorem pipeline_h264_pred (disable avc : Bool) (pk : Packetizer) (buf : Bytes) (frames : List H264Frame)
     (h : wfH264 pk frames = true) :
     histOkWhole pk (frames.map H264Frame.frameIn) (h264Expected disable avc frames)
@@ -437,6 +516,15 @@ example : exAv1.map AV1Frame.expected =
 example : histOkE exCfg (exAv1.map AV1Frame.frameIn) (exAv1.map AV1Frame.expected)
     (runAV1 exCfg { buffer := [0x30, 0xEE], z := false, y := true, n := false } (exAv1.map AV1Frame.frameIn)) = true :=
   pipeline_av1_pred _ _ _ (by decide +kernel)
+
+/-- H265 at MTU 20 (budget 8): VPS (3 bytes) and a 12-byte IDR_W_RADL slice — one single NAL unit
+    packet and two fragmentation units.  (The hypotheses hold; the conclusion is the theorem's.) -/
+def exH265 : List H265Frame := [{ units := [(4, [0x40, 1, 0x0C]), (3, [0x26, 1, 1, 2, 3, 4, 5, 6, 7, 8, 9, 10])] }]
+example : wfH265 ⟨false, false⟩ exCfg exH265 = true := by decide
+example : ((runH265 ⟨false, false⟩ 0 exCfg (exH265.map H265Frame.frameIn)).map (fun o => o.outs.map resBytes)) =
+    [[[0x40, 1, 0x0C], [0x62, 1, 0x93, 1, 2, 3, 4, 5], [0x62, 1, 0x53, 6, 7, 8, 9, 10]]] := by decide +kernel
+example : histOkH265 exCfg exH265 (runH265 ⟨false, false⟩ 0 exCfg (exH265.map H265Frame.frameIn)) = true :=
+  pipeline_h265_pred _ _ _ _ (by decide)
 
 /-- H264 at MTU 20 (budget 8): SPS and PPS alone in the first frame (held back: no packet), then
     AUD + IDR of 9 bytes — the STAP-A (5+3+2 > 8) does not fit, so SPS, PPS leave on their own and
